@@ -673,6 +673,7 @@ func (f *fileConfig) Reload(opts ...ReloadedConfigDataOption) error {
 // reloadLocked does the work of Reload; it returns the callbacks to call (none
 // if nothing was applied). f.reloadMux must be held.
 func (f *fileConfig) reloadLocked(opts ...ReloadedConfigDataOption) ([]ConfigReloadCallback, string, string, error) {
+	simhook.Yield("config.Reload.read")
 	cData, rData, err := newConfigAndRules(f.opts)
 	if err != nil {
 		return nil, "", "", err
